@@ -83,7 +83,8 @@ package ecs
 //@   ensures  fresh: !old(epIssued(p)[result])
 //@   ensures  alive: alive(p, result) && p.reserved <= result.id
 //@   ensures  grow: len(p.entities) == old(len(p.entities)) || (len(p.entities) == old(len(p.entities)) + 1 && int(result.id) == old(len(p.entities)))
-//@   ensures  kept: forall i uint32 :: __trigger(p.entities[i].gen) && (uint64(i) < uint64(old(len(p.entities))) && entityID(i) != result.id ==> p.entities[i] == old(p.entities[i]))
+//@   ensures  kept: forall i uint32 :: __trigger(p.entities[i].gen) && __trigger(p.entities[i].id) && (uint64(i) < uint64(old(len(p.entities))) && entityID(i) != result.id ==> p.entities[i] == old(p.entities[i]))
+//@   ensures  ranks: forall i uint32 :: __trigger(epRank(p)[i]) && (entityID(i) != result.id ==> epRank(p)[i] == old(epRank(p)[i]))
 //@   ensures  others: forall h Entity :: h.id != result.id ==> alive(p, h) == old(alive(p, h))
 //@   ensures  issued: forall h Entity :: epIssued(p)[h] == (old(epIssued(p)[h]) || h == result)
 //@   ensures  count: *epAlive(p) == old(*epAlive(p)) + 1
@@ -96,7 +97,7 @@ package ecs
 //@   ensures  inv: poolInv(p)
 //@   ensures  dead: !alive(p, e)
 //@   ensures  others: forall h Entity :: h.id != e.id ==> alive(p, h) == old(alive(p, h))
-//@   ensures  kept: forall i uint32 :: __trigger(p.entities[i].gen) && (uint64(i) < uint64(len(p.entities)) && entityID(i) != e.id ==> p.entities[i] == old(p.entities[i]))
+//@   ensures  kept: forall i uint32 :: __trigger(p.entities[i].gen) && __trigger(p.entities[i].id) && (uint64(i) < uint64(len(p.entities)) && entityID(i) != e.id ==> p.entities[i] == old(p.entities[i]))
 //@   ensures  ranks: len(p.entities) == old(len(p.entities)) && epRank(p)[uint32(e.id)] != 0 && (forall i uint32 :: __trigger(epRank(p)[i]) && (entityID(i) != e.id ==> epRank(p)[i] == old(epRank(p)[i])))
 //@   ensures  never-again: forall h Entity :: epIssued(p)[h] ==> !(h.id == e.id && alive(p, h))
 //@   ensures  issued: forall h Entity :: epIssued(p)[h] == old(epIssued(p)[h])
